@@ -327,6 +327,9 @@ pub fn scoping_programs() -> Vec<String> {
         "int fwd(int a, int b);\nint s5(int x) { return fwd(x, 2); }\nint fwd(int a, int b) { return a * b + 1; }\n",
         "int dflt(int a, int b = 3);\nint dflt(int a, int b) { return a * b + 1; }\nint s6(int x) { return dflt(x) + dflt(x, 5); }\n",
         "int dflt2(int a, int b = 3) { return a * b + 1; }\nint s7(int x) { return dflt2(x) + dflt2(x, 5); }\n",
+        // user names spelled like the names the exporters generate for an overload set / a reserved word
+        "float weight(float x) { return x * 2.0f; }\nfloat weight(int x) { return (float)x + 0.5f; }\nfloat s8(float x) { float weight_0 = weight(x); float weight_1 = weight((int)x); return weight_0 + weight_1 * 4.0f + weight(weight_0); }\n",
+        "static float kernel = 1.5f;\nstatic float technique = 2.5f;\nfloat s9(float x) { float kernel_0 = x; float technique_0 = x * 3.0f; kernel += 1.0f; return kernel - kernel_0 + technique * technique_0; }\n",
     ];
     scoping.iter().map(|t| t.to_string()).collect()
 }
